@@ -205,6 +205,22 @@ def run_unit(unit):
                         ref = geometric_opd(o, rows_w, Hy, Px, Py, w, xpl)
                         cmp_opd(part, 'opd-all-fields-all-wavelengths', 'Wavefront', cond,
                                 dict(det0, wavelength=w, Hy=Hy, call='fields=all,wavelengths=all'), wf.data[fi][wi][0], ref)
+            # ---- the same lens with its field list on the other side of the axis (the largest field is negative)
+            if off == 0.0 and math.isfinite(xpl) and abs(xpl) < 1e6:
+                sp_n = dict(sp, fields=[[-mf, 0.0, 0.0], [0.0, 0.0, 0.0], [0.4 * mf, 0.0, 0.0]])
+                o_n = LZ.build(sp_n)
+                part.states += 1
+                d = dist_points('hexapolar', 3)
+                Px, Py = np.asarray(d.x, float).copy(), np.asarray(d.y, float).copy()
+                flds = [(0.0, 1.0), (0.0, -1.0), (0.0, 0.4)]
+                wf = Wavefront(o_n, fields=flds, wavelengths=[0.5876], num_rays=3, distribution='hexapolar')
+                part.transitions += 1
+                part.evals += 1
+                rows_p = prescription.rows(sp_n, lambda m, prev: LZ.ref_index(m, 0.5876, prev))
+                for fi, (_, Hy) in enumerate(flds):
+                    ref = geometric_opd(o_n, rows_p, Hy, Px, Py, 0.5876, xpl)
+                    cmp_opd(part, 'opd-is-path-difference-to-reference-sphere', 'Wavefront', cond + ',largest-field=negative',
+                            dict(det0, wavelength=0.5876, Hy=Hy, fields=[-mf, 0.0, 0.4 * mf]), wf.data[fi][0][0], ref)
             # ---- the OPD map object after view(): the stored samples and rms() are still the path differences
             if off == 0.0 and math.isfinite(xpl) and abs(xpl) < 1e6:
                 import matplotlib.pyplot as plt
